@@ -62,11 +62,13 @@ Definition write_at (buf : list byte) (b e : N) (v : list byte) : option (list b
   if (e <? b) || (lenN buf <? e) || negb (lenN v =? e - b) then None
   else Some (firstn (N.to_nat b) buf ++ v ++ skipn (N.to_nat e) buf).
 
-Definition insert (c : cache) (key : N) (value : list byte) : cres (N * cache) :=
+(* pub fn insert(&mut self, key, value) -> Result<usize, Error>: (result, state afterwards).
+   Every early return happens before the first mutation of [self]. *)
+Definition insert (c : cache) (key : N) (value : list byte) : cres N * cache :=
   match lookup key (c_indexes c) with
-  | Some _ => CErr ValueAlreadyPresent
+  | Some _ => (CErr ValueAlreadyPresent, c)
   | None =>
-  if cap c <? lenN value then CErr ValueLargerThanBuffer else
+  if cap c <? lenN value then (CErr ValueLargerThanBuffer, c) else
   (* wrap *)
   let wrapped :=
     if cap c <? lenN value + c_fp c then
@@ -80,20 +82,20 @@ Definition insert (c : cache) (key : N) (value : list byte) : cres (N * cache) :
       end
     else Some (c_indexes c, c_queue c, 0, c_fp c, c_full c) in
   match wrapped with
-  | None => CPanic
+  | None => (CPanic, c)
   | Some (idx, q, removed, fp, full) =>
       let b := fp in
       let e := b + lenN value in
       match write_at (c_buffer c) b e value with
-      | None => CPanic
+      | None => (CPanic, c)
       | Some buf =>
           let rg := {| r_begin := b; r_end := b + lenN value |} in
           match remove_range idx q rg with
-          | None => CPanic
+          | None => (CPanic, c)
           | Some (idx', q', n) =>
-              COk (removed + n,
-                   {| c_buffer := buf; c_fp := e;
-                      c_indexes := (key, rg) :: idx'; c_queue := q' ++ [key]; c_full := full |})
+              (COk (removed + n),
+               {| c_buffer := buf; c_fp := e;
+                  c_indexes := (key, rg) :: idx'; c_queue := q' ++ [key]; c_full := full |})
           end
       end
   end
